@@ -5,6 +5,7 @@ import (
 	"crypto/tls"
 	"encoding/json"
 	"fmt"
+	"io"
 	"net"
 	"strings"
 
@@ -27,7 +28,8 @@ type c19Cfg struct {
 	// Fallback: the client is configured with WithTLSPortPolicy (port 587 with fallback to 25) and the first dial
 	// is refused, so the connection under test is the one of the fallback dial
 	Fallback bool `json:"fallback,omitempty"`
-	Msgs     int  `json:"msgs,omitempty"` // DialAndSend batch size (default 1)
+	Msgs     int  `json:"msgs,omitempty"`   // DialAndSend batch size (default 1)
+	BadMsg   int  `json:"badmsg,omitempty"` // DialAndSend: 1 = message without recipients, 2 = 8bit message (server has no... it has 8BITMIME) with failing body writer, 3 = nil message only
 }
 
 type c19Case struct {
@@ -149,6 +151,19 @@ func c19Exec(r *vf.Run, cfg c19Cfg, c *vf.Chooser) (keys, whats []string) {
 			for i := 0; i < maxInt(1, cfg.Msgs); i++ {
 				ms = append(ms, hx.StdMsg(i, 1+i%2, mail.EncodingQP))
 			}
+			switch cfg.BadMsg {
+			case 1:
+				bad := mail.NewMsg()
+				_ = bad.From("sender@snd.example")
+				bad.SetBodyString(mail.TypeTextPlain, "no recipients")
+				ms = append([]*mail.Msg{bad}, ms...)
+			case 2:
+				bad := hx.StdMsg(9, 1, mail.EncodingQP)
+				bad.SetBodyWriter(mail.TypeTextPlain, func(w io.Writer) (int64, error) { return 0, errProducer })
+				ms = append(ms, bad)
+			case 3:
+				ms = []*mail.Msg{nil}
+			}
 			opErr = cl.DialAndSend(ms...)
 		} else {
 			opErr = cl.DialWithContext(context.Background())
@@ -247,6 +262,11 @@ func init() {
 								cfgs = append(cfgs, c19Cfg{TLS: tlsm, Auth: a, Send: send, HSBad: hs, NoSTL: nostl})
 								if tlsm == 1 && hs == 0 && (a == 0 || a == 1) {
 									cfgs = append(cfgs, c19Cfg{TLS: tlsm, Auth: a, Send: send, HSBad: hs, NoSTL: nostl, Fallback: true})
+								}
+								if send && tlsm == 2 && a == 0 {
+									for bm := 1; bm <= 3; bm++ {
+										cfgs = append(cfgs, c19Cfg{TLS: tlsm, Auth: a, Send: send, BadMsg: bm})
+									}
 								}
 								if send && tlsm == 2 && (a == 0 || a == 2) {
 									cfgs = append(cfgs, c19Cfg{TLS: tlsm, Auth: a, Send: send, Msgs: 2}, c19Cfg{TLS: tlsm, Auth: a, Send: send, Msgs: 3})
